@@ -31,8 +31,13 @@ def generate(rng, tier):
         kind = "bvisual" if i % 5 in (1, 3) else "bsort"
         # the batch VisualSORT computes the own-area shares per scene inside the batch loop: most of its cases carry
         # own-area thresholds and several scenes, so that a share taken from another scene of the batch is noticed
+        extra = {}
+        if kind == "bvisual" and i % 10 == 3:
+            # appearance voting under a low cosine threshold: objects that jump (no positional match) and are seen again with a
+            # similarity between the threshold and one minus the threshold; tracks vote from their first stored feature
+            extra = dict(vkind=("cosine", rng.choice([0.2, 0.3])), easy_votes=True, world_kw=dict(jump_p=0.3, noises=(0.3, 0.8, 0.5, 0.05)))
         h = history(rng, kind, steps, nscenes=(rng.randint(2, 4) if kind == "bvisual" else rng.randint(1, 4)), api_mix=(i % 4 == 0),
-                    shards=rng.randint(1, 4), vshards=rng.randint(1, 4), own_p=0.85)
+                    shards=rng.randint(1, 4), vshards=rng.randint(1, 4), own_p=(0.2 if extra else 0.85), **extra)
         out = ["trk sel 0", "trk sched jitter %d" % rng.randrange(1 << 30)]
         body = []
         for l in h:
